@@ -123,3 +123,110 @@ package dsp
 //@   loop 4: invariant 0 <= x
 //@   ensures width > 0 ==> len(tUV) == width
 //@   ensures width > 0 && botY != nil ==> base(bUV) == base(tUV) && offset(bUV) >= offset(tUV) + width && len(bUV) >= width
+//
+// ---- C04 / C06 / C13: inverse transforms equal RFC 6386; encoder and decoder use the same reconstruction ----
+//
+//@ func transformOne
+//@   property C04 C06 C13 C05
+//@   requires len(in) >= 16 && len(dst) >= 100 && base(in) != base(dst)
+//@   modifies dst[:100]
+//@   ensures forall r int in 0..4, c int in 0..4 :: dst[r*32+c] == old(SpecIDCTPixel(in, dst, r, c))
+//
+// The encoder's reconstruction transform is the same function of (coefficients,
+// prediction): no drift between the encoder's reference and the decoder (C06).
+//@ func iTransformOne
+//@   property C06 C04 C13
+//@   requires len(in) >= 16 && len(dst) >= 100 && len(ref) >= 100 && base(in) != base(dst)
+//@   requires base(ref) != base(dst) || offset(ref) == offset(dst)
+//@   modifies dst[:100]
+//@   ensures forall r int in 0..4, c int in 0..4 :: dst[r*32+c] == old(SpecIDCTPixel(in, ref, r, c))
+//
+//@ func transformDC
+//@   property C04 C13
+//@   requires len(in) >= 16 && len(dst) >= 100 && base(in) != base(dst)
+//@   requires forall k int in 1..16 :: in[k] == 0
+//@   modifies dst[:100]
+//@   ensures forall r int in 0..4, c int in 0..4 :: dst[r*32+c] == old(SpecIDCTPixel(in, dst, r, c))
+//
+//@ func transformAC3
+//@   property C04 C13
+//@   requires len(in) >= 16 && len(dst) >= 100 && base(in) != base(dst)
+//@   requires in[2] == 0 && in[3] == 0 && forall k int in 5..16 :: in[k] == 0
+//@   modifies dst[:100]
+//@   ensures forall r int in 0..4, c int in 0..4 :: dst[r*32+c] == old(SpecIDCTPixel(in, dst, r, c))
+//
+//@ func transformWHT
+//@   property C04 C06 C13
+//@   requires len(in) >= 16 && len(out) >= 256 && base(in) != base(out)
+//@   modifies out[:256]
+//@   ensures forall r int in 0..4, c int in 0..4 :: out[(r*4+c)*16] == old(SpecWHT(in, r, c))
+//
+// ---- C04: loop-filter arithmetic equals RFC 6386 section 15 ----
+//
+// The clip tables are what their names say on their whole index range; every
+// caller must stay inside that range (index safety of the tables).
+//@ func Ksclip1
+//@   property C04 C05 C13
+//@   requires -893 <= v && v <= 892
+//@   split v -893..892
+//@   modifies nothing
+//@   ensures v < -128 ==> int(result) == -128
+//@   ensures -128 <= v && v <= 127 ==> int(result) == v
+//@   ensures v > 127 ==> int(result) == 127
+//
+//@ func Ksclip2
+//@   property C04 C05 C13
+//@   requires -112 <= v && v <= 112
+//@   modifies nothing
+//@   ensures int(result) == specClampInt(v, -16, 15)
+//
+//@ func Kclip1
+//@   property C04 C05 C13
+//@   requires -255 <= v && v <= 511
+//@   modifies nothing
+//@   ensures int(result) == specClampInt(v, 0, 255)
+//
+//@ func Kabs0
+//@   property C04 C05 C13
+//@   requires -255 <= v && v <= 255
+//@   modifies nothing
+//@   ensures int(result) == specAbsInt(v)
+//
+//@ func needsFilter
+//@   property C04 C13
+//@   requires 0 <= p1 && p1 <= 255 && 0 <= p0 && p0 <= 255 && 0 <= q0 && q0 <= 255 && 0 <= q1 && q1 <= 255
+//@   modifies nothing
+//@   ensures result <==> SpecSimpleThreshold(p1, p0, q0, q1, thresh)
+//
+//@ func hev
+//@   property C04 C13
+//@   requires 0 <= p1 && p1 <= 255 && 0 <= p0 && p0 <= 255 && 0 <= q0 && q0 <= 255 && 0 <= q1 && q1 <= 255
+//@   modifies nothing
+//@   ensures result <==> SpecHev(p1, p0, q0, q1, hevThresh)
+//
+//@ func doFilter2
+//@   property C04 C13 C05
+//@   requires 1 <= step && step <= 4096 && 2*step <= off && off <= 0x40000000 && off + step < len(p) && len(p) <= 0x40000000
+//@   modifies p[off-step:off+1]
+//@   ensures int(p[off-step]) == old(SpecSimpleFilterP0(int(p[off-2*step]), int(p[off-step]), int(p[off]), int(p[off+step])))
+//@   ensures int(p[off]) == old(SpecSimpleFilterQ0(int(p[off-2*step]), int(p[off-step]), int(p[off]), int(p[off+step])))
+//
+//@ func doFilter4
+//@   property C04 C13 C05
+//@   requires 1 <= step && step <= 4096 && 2*step <= off && off <= 0x40000000 && off + step < len(p) && len(p) <= 0x40000000
+//@   modifies p[off-2*step:off+step+1]
+//@   ensures int(p[off-2*step]) == old(SpecSubblockFilter(int(p[off-2*step]), int(p[off-step]), int(p[off]), int(p[off+step])).0)
+//@   ensures int(p[off-step]) == old(SpecSubblockFilter(int(p[off-2*step]), int(p[off-step]), int(p[off]), int(p[off+step])).1)
+//@   ensures int(p[off]) == old(SpecSubblockFilter(int(p[off-2*step]), int(p[off-step]), int(p[off]), int(p[off+step])).2)
+//@   ensures int(p[off+step]) == old(SpecSubblockFilter(int(p[off-2*step]), int(p[off-step]), int(p[off]), int(p[off+step])).3)
+//
+//@ func doFilter6
+//@   property C04 C13 C05
+//@   requires 1 <= step && step <= 4096 && 3*step <= off && off <= 0x40000000 && off + 2*step < len(p) && len(p) <= 0x40000000
+//@   modifies p[off-3*step:off+2*step+1]
+//@   ensures int(p[off-3*step]) == old(SpecMBFilter(int(p[off-3*step]), int(p[off-2*step]), int(p[off-step]), int(p[off]), int(p[off+step]), int(p[off+2*step])).0)
+//@   ensures int(p[off-2*step]) == old(SpecMBFilter(int(p[off-3*step]), int(p[off-2*step]), int(p[off-step]), int(p[off]), int(p[off+step]), int(p[off+2*step])).1)
+//@   ensures int(p[off-step]) == old(SpecMBFilter(int(p[off-3*step]), int(p[off-2*step]), int(p[off-step]), int(p[off]), int(p[off+step]), int(p[off+2*step])).2)
+//@   ensures int(p[off]) == old(SpecMBFilter(int(p[off-3*step]), int(p[off-2*step]), int(p[off-step]), int(p[off]), int(p[off+step]), int(p[off+2*step])).3)
+//@   ensures int(p[off+step]) == old(SpecMBFilter(int(p[off-3*step]), int(p[off-2*step]), int(p[off-step]), int(p[off]), int(p[off+step]), int(p[off+2*step])).4)
+//@   ensures int(p[off+2*step]) == old(SpecMBFilter(int(p[off-3*step]), int(p[off-2*step]), int(p[off-step]), int(p[off]), int(p[off+step]), int(p[off+2*step])).5)
